@@ -26,3 +26,13 @@ package api
 //@   ensures result == (exists j int :: InRange(c, j) && Key(c, j) == id && (forall k int :: j <= k && k < len(c.Members) ==> RoleAt(c, k) == RoleBackupWorker))
 //@   loop 1 invariant -1 <= i && i < len(c.Members)
 //@   loop 1 invariant forall j int :: i < j && j < len(c.Members) ==> Key(c, j) != id && RoleAt(c, j) == RoleBackupWorker
+
+//@ func Committee.SchedulerRank
+//@   props C11
+//@   modifies nothing
+//@   ensures result1 == (exists j int :: InRange(c, j) && Key(c, j) == id && (forall k int :: 0 <= k && k <= j ==> RoleAt(c, k) == RoleWorker))
+//@   ensures result1 ==> int(result0) < len(c.Members)
+//@   ensures !result1 ==> result0 == 0
+//@   loop 1 invariant int(total) == idx() && (forall k int :: 0 <= k && k < idx() ==> RoleAt(c, k) == RoleWorker)
+//@   loop 1 invariant isWorker == (exists j int :: 0 <= j && j < idx() && Key(c, j) == id)
+//@   loop 1 invariant isWorker ==> idx < total
